@@ -45,7 +45,12 @@ pub fn expand_self<T: VisitableMut + Clone>(input: &T, to: &Type) -> T {
         fn visit_type_mut(&mut self, i: &mut Type) {
             let tself: Type = parse_quote!(Self);
             if i == &tself {
-                *i = self.to.clone();
+                // a bare `dyn A + B` may land behind `&` or before `+`: keep it in parentheses
+                let to = self.to;
+                *i = match to {
+                    Type::TraitObject(_) | Type::ImplTrait(_) => parse_quote!((#to)),
+                    _ => to.clone(),
+                };
             } else {
                 visit_type_mut(self, i);
             }
